@@ -135,6 +135,14 @@ def shared_origin(cx, cls, fn, value, clsvars):
     if value is None:
         return None
     v = value
+    if isinstance(v, ast.BoolOp):
+        for x in v.values:
+            o = shared_origin(cx, cls, fn, x, clsvars)
+            if o:
+                return o
+        return None
+    if isinstance(v, ast.IfExp):
+        return shared_origin(cx, cls, fn, v.body, clsvars) or shared_origin(cx, cls, fn, v.orelse, clsvars)
     if isinstance(v, ast.Attribute):
         if _is_class_ref(v.value, cls, cx.idx):
             return 'the class attribute `%s`' % U(v)
@@ -151,14 +159,25 @@ def is_singleton(idx, cls):
     return any(k.name == 'Singleton' for k in idx.mro(cls)) or 'Singleton' in idx.extern_bases(cls)
 
 
-def check_class(ck, cx, cls, rule, why, only=None):
-    """obligations for one class; returns the number of mutated attributes examined"""
+def check_class(ck, cx, cls, rule, why, only=None, stateful=()):
+    """obligations for one class; returns the number of mutated attributes examined.  `stateful`: attributes that hold a stateful
+    collaborator (a framer, a transaction manager) -- calling its methods changes it, so it is treated like state mutated in place"""
     idx = cx.idx
     if is_singleton(idx, cls):
         return 0
     muts = inplace_mutations(idx, cls)
     if only is not None:
         muts = {a: m for a, m in muts.items() if a in only}
+    for a in stateful:
+        if a not in muts:
+            for k_ in idx.mro(cls):
+                for fn_ in k_.methods.values():
+                    if fn_.name == '__init__':
+                        continue
+                    for n_ in ast.walk(fn_.node):
+                        if isinstance(n_, ast.Call) and isinstance(n_.func, ast.Attribute) and isinstance(n_.func.value, ast.Attribute) \
+                                and isinstance(n_.func.value.value, ast.Name) and n_.func.value.value.id == 'self' and n_.func.value.attr == a and a not in muts:
+                            muts[a] = [(fn_, n_, '.%s()' % n_.func.attr)]
     if not muts:
         return 0
     clsvars = class_level(idx, cls)
@@ -247,12 +266,12 @@ def _assigned_somewhere(idx, cls, attr):
     return False
 
 
-def rule_instance_owned(ck, cx, rule, class_qns, why, floor, only=None):
+def rule_instance_owned(ck, cx, rule, class_qns, why, floor, only=None, stateful=()):
     ck.rule(rule, 'state that methods mutate in place through self (%s) is bound to a fresh object per instance by every constructor path, '
                   'never left on the class or aliased to class/module-level objects' % ', '.join(q.rsplit('.', 1)[-1] for q in class_qns))
     n = 0
     for q in class_qns:
-        n += check_class(ck, cx, cx.idx.cls(q), rule, why, only=only.get(q) if isinstance(only, dict) else only)
+        n += check_class(ck, cx, cx.idx.cls(q), rule, why, only=only.get(q) if isinstance(only, dict) else only, stateful=stateful)
     ck.floor(rule, n, floor, 'attributes mutated in place through self')
     return n
 
@@ -426,3 +445,8 @@ def rule_no_unsafe_memo(ck, cx, rule, module_names, why):
     flagged = unsafe_memo(kc.methods['size']) is not None and unsafe_memo(Func(m0, tree.body[2])) is not None
     ck.positive(rule, flagged, 'lru_cache on a method / on a function returning a list')
     return n
+
+TWISTED_CLIENTS = ('pymodbus.client.asynchronous.twisted.ModbusClientProtocol', 'pymodbus.client.asynchronous.twisted.ModbusTcpClientProtocol',
+                   'pymodbus.client.asynchronous.twisted.ModbusSerClientProtocol')
+SYNC_CLIENTS = ('pymodbus.client.sync.ModbusTcpClient', 'pymodbus.client.sync.ModbusTlsClient', 'pymodbus.client.sync.ModbusUdpClient',
+                'pymodbus.client.sync.ModbusSerialClient')
